@@ -120,6 +120,21 @@ PROPS = {
         "technique": "Lean 4 proof (canonicity + allocator refinement) + cross-configuration differential run with verified certificates",
         "partial": ["no explicit Lean codec model of full/sparse packing"],
     },
+    "C06": {
+        "title": "Node lifetime: reference counts are exact, nothing dangles, nothing leaks",
+        "theorems": ["Meddly.NodeLife." + t for t in [
+            "counts_exact", "no_dangling", "held_alive", "content_stable", "reuse_only_free",
+            "no_reuse_while_cached", "all_reclaimed", "all_reclaimed_pessimistic", "release_never_fails"]] +
+            ["Meddly.CounterArray." + t for t in ["counter_refines", "width_inv", "tally_exact"]] +
+            ["Meddly.Dump.check_sound", "Meddly.Dump.evalFast_eq_evalChild"],
+        "quick": [fam("nodelife"), fam("canon")],
+        "thorough": [fam("nodelife", "asan"), fam("canon", "asan")],
+        "leanchecker": ["MeddlyModel.State.NodeLife", "MeddlyModel.State.CounterArray"],
+        "level_text": "NodeLife state machine (per handle free | active(level, in, cc, children) | deleted(cc); explicit multiset of outside references; pessimistic / optimistic policy) with theorems for EVERY legal op list: counts_exact (incoming count = number of references), no_dangling, held_alive, content_stable (a held node keeps level and children), reuse_only_free, no_reuse_while_cached, all_reclaimed (no references and no cache marks => every handle free; pessimistic: no references => no active handle). CounterArray refines a plain array of naturals through the 8/16/32-bit widening and narrowing. Tie: (D) a real forest driven at the primitive level (createReducedNode / link / unlink / cache / uncache / dd_edge set-copy-clear) with the state of EVERY handle compared with the model after every step, counts pushed across 255 and 65535, handle table grown and shrunk; the real counter_array class driven op by op; (S) in the canon family every dump is recounted (parents + registered roots = reported incoming count), every held edge is re-evaluated against its target after GC churn, and after releasing all edges and clearing caches the forest must report 0 nodes.",
+        "level_note": "Paired (every creation/destruction of a reference carries its link/unlink) is the legality of the model run; on the implementation it is checked by the recount certificate, not assumed. A C++-level use-after-free cannot be exhibited by the theorem: the thorough tier runs the ASan flavour. Which free handle is picked is nondeterminism of the model. 'never delete' is indistinguishable from optimistic in the code and is mapped so.",
+        "technique": "Lean 4 proof (invariants by induction over op lists, refinement) + step-by-step differential run on a real forest + recount certificate on dumps",
+        "partial": ["mark-and-sweep forests not covered", "EV/quasi/identity forests only through the canon-family recount"],
+    },
 }
 
 NOT_YET = {}
@@ -129,6 +144,10 @@ NOT_YET = {}
 # (the oracle is the property itself), per family.  Every other kind is a broken
 # correspondence between model and code.
 ORACLE_KINDS = {
+    # compute table: a hit on a dead entry, a wrong cached answer, a cache count that disagrees with the
+    # real table's contents are direct failures of C07's statement
+    "ctable": {"find-hit", "e2e-oracle", "e2e-config", "cc-vs-table", "reuse-while-cached", "e2e-cc", "crash", "truncated"},
+    "memman": {"alloc-request", "bad", "scan-bad", "inval", "ovl", "crash", "tile-unknown-in-use"},
     "*": {"op-result", "operand-changed", "canonicity", "canonical", "refcount", "dangling", "dangling-root",
           "node-count", "build", "eval-vs-structure", "crash", "unexpected-error", "error-code", "op-should-fail",
           "harness"},
